@@ -1118,14 +1118,15 @@ class NetCDFWrite(IOWrite):
             if "coordinates" in x:
                 x["coordinates"] = " ".join(sorted(x["coordinates"]))
 
-            # Grid mapping
-            grid_mappings = set(x.get("grid_mapping", ()))
+            # Grid mapping (no attribute when there is no grid
+            # mapping)
+            grid_mappings = set(x.pop("grid_mapping", ()))
             if len(grid_mappings) == 1:
                 x["grid_mapping"] = grid_mappings.pop()
             elif len(grid_mappings) > 1:
                 raise ValueError(
                     f"Can't write {field!r}: Geometry container has multiple "
-                    f"grid mapping variables: {x['grid_mapping']!r}"
+                    f"grid mapping variables: {sorted(grid_mappings)!r}"
                 )
 
             # Node count
